@@ -360,11 +360,11 @@ class SReal:
 
     def __mod__(self, p):
         pe = to_z3(p)
-        return SReal(self.e - pe * z3.ToReal(z3.ToInt(self.e / pe)))
+        return SReal(self.e - pe * bounded_floor(self.e / pe))
 
     def __floordiv__(self, p):
         pe = to_z3(p)
-        return SReal(z3.ToReal(z3.ToInt(self.e / pe)))
+        return SReal(bounded_floor(self.e / pe))
 
     # -- comparisons
     def _cmp(self, o, f):
@@ -503,6 +503,30 @@ def _eq(a, b):
 
 def _ne(a, b):
     return a != b
+
+
+FLOOR_RANGE = 6
+
+
+def floor_term(q):
+    """floor(q) for q in [-FLOOR_RANGE, FLOOR_RANGE) as a chain of If's (keeps queries in QF_NRA; no ToInt)."""
+    out = z3.RealVal(FLOOR_RANGE - 1)
+    for k in range(FLOOR_RANGE - 1, -FLOOR_RANGE, -1):
+        out = z3.If(q < k, z3.RealVal(k - 1), out)
+    return out
+
+
+def bounded_floor(q):
+    """As floor_term, and restricts the current path to the modelled range (recorded assumption)."""
+    pm = PathManager.current
+    if pm is None:
+        return floor_term(q)
+    pm.assume(z3.And(q >= -FLOOR_RANGE, q < FLOOR_RANGE))
+    # split the path on the integer part: every path then carries a polynomial (If-free) term
+    for k in range(-FLOOR_RANGE + 1, FLOOR_RANGE):
+        if pm.branch(q < k):
+            return z3.RealVal(k - 1)
+    return z3.RealVal(FLOOR_RANGE - 1)
 
 
 _UF: dict[str, z3.FuncDeclRef] = {}
